@@ -230,7 +230,7 @@ impl Model for M {
     type W = ();
     fn worker(&self) {}
     fn n_inits(&self) -> usize {
-        4
+        5
     }
     fn init_name(&self, i: usize) -> String {
         [
@@ -238,6 +238,7 @@ impl Model for M {
             "link 0 latched (scripted: Load, Proof, Adv 3000, Adv 1000, Sel)",
             "link 0 silence-pulled (scripted: Load, Adv 1000, Sel)",
             "link 0 latched with its window lowered by NAKs (scripted: Load, Proof, 5 x Nak, Adv 3000, Adv 1000, Sel)",
+            "link 0 latched four separate times (guard toggled off and on in between; the lifetime counters survive), guard on",
         ][i]
         .into()
     }
@@ -255,6 +256,12 @@ impl Model for M {
             sel_calls: 0,
         };
         let script: Vec<Ev> = match i {
+            4 => vec![
+                Ev::Load(0), Ev::Proof(0), Ev::Adv(3000), Ev::Adv(1000), Ev::Sel,
+                Ev::Guard, Ev::Sel, Ev::Guard, Ev::Sel,
+                Ev::Guard, Ev::Sel, Ev::Guard, Ev::Sel,
+                Ev::Guard, Ev::Sel, Ev::Guard, Ev::Sel,
+            ],
             3 => vec![Ev::Load(0), Ev::Proof(0), Ev::Nak(0), Ev::Nak(0), Ev::Nak(0), Ev::Nak(0), Ev::Nak(0), Ev::Adv(3000), Ev::Adv(1000), Ev::Sel],
             1 => vec![Ev::Load(0), Ev::Proof(0), Ev::Adv(3000), Ev::Adv(1000), Ev::Sel],
             2 => vec![Ev::Load(0), Ev::Adv(1000), Ev::Sel],
@@ -263,7 +270,10 @@ impl Model for M {
         for ev in script {
             if let Err(f) = self.step_ev(w, &mut s, ev) { engine::prefix_fail(f); }
         }
-        if i == 1 || i == 3 {
+        if i == 4 {
+            assert!(s.links[0].verif_private().stall_gate_events >= 4, "scripted history did not latch four times");
+        }
+        if i == 1 || i == 3 || i == 4 {
             assert!(s.links[0].stall_latched(), "scripted history did not latch");
         }
         if i == 2 {
